@@ -116,6 +116,12 @@ func drawFwdHeaders(t *rapid.T, proto string, ci, ri int) [][2]string {
 				if drawBool(t, "xff2", 30) {
 					v += ", 10.1.1.1"
 				}
+				if drawBool(t, "xfflong", 12) {
+					// a long chain of hops (IPv6), up to a few kB on one line
+					for k, hops := 0, []int{20, 40, 64, 200}[rapid.IntRange(0, 3).Draw(t, "xffhops")]; k < hops; k++ {
+						v += fmt.Sprintf(", 2001:db8:%x::%x", k, ri+1)
+					}
+				}
 			case "X-Forwarded-Host":
 				v = "evil.example"
 			case "X-Forwarded-Proto":
